@@ -215,6 +215,39 @@ func (f *Framer) parseControlFrame(version uint16, frameType ControlFrameType) (
 	return cframe, nil
 }
 
+// validHeaderName reports whether name, without the leading ':' of SPDY's
+// special headers, is a non-empty RFC 7230 token.
+func validHeaderName(name string) bool {
+	if strings.HasPrefix(name, ":") {
+		name = name[1:]
+	}
+	if name == "" {
+		return false
+	}
+	for i := 0; i < len(name); i++ {
+		c := name[i]
+		if c <= ' ' || c >= 0x7f {
+			return false
+		}
+		switch c {
+		case '(', ')', '<', '>', '@', ',', ';', ':', '\\', '"', '/', '[', ']', '?', '=', '{', '}':
+			return false
+		}
+	}
+	return true
+}
+
+// validHeaderValue reports whether v is free of CR and LF (NUL separates
+// multiple values of one SPDY header and is split off by the caller).
+func validHeaderValue(v string) bool {
+	for i := 0; i < len(v); i++ {
+		if c := v[i]; c == '\r' || c == '\n' {
+			return false
+		}
+	}
+	return true
+}
+
 func parseHeaderValueBlock(r io.Reader, streamId StreamId) (http.Header, uint32, error) {
 	headerLen := uint32(0) // length of header decompressed
 
@@ -242,6 +275,9 @@ func parseHeaderValueBlock(r io.Reader, streamId StreamId) (http.Header, uint32,
 			return nil, 0, err
 		}
 		name := string(nameBytes)
+		if !validHeaderName(name) {
+			return nil, 0, &Error{InvalidHeaderPresent, streamId}
+		}
 		if name != strings.ToLower(name) {
 			e = &Error{UnlowercasedHeaderName, streamId}
 			name = strings.ToLower(name)
@@ -259,6 +295,9 @@ func parseHeaderValueBlock(r io.Reader, streamId StreamId) (http.Header, uint32,
 		value := make([]byte, length)
 		if _, err := io.ReadFull(r, value); err != nil {
 			return nil, 0, err
+		}
+		if !validHeaderValue(string(value)) {
+			return nil, 0, &Error{InvalidHeaderPresent, streamId}
 		}
 		valueList := strings.Split(string(value), headerValueSeparator)
 		for _, v := range valueList {
